@@ -57,7 +57,7 @@ pub enum Fault {
     DownloadFailure { op: usize, block: usize, persistent: bool },
 }
 
-fn exec_raw(world: &mut World, s: &mut Session, op: &Op, salt: u64) {
+pub fn exec_raw(world: &mut World, s: &mut Session, op: &Op, salt: u64) {
     match op.clone() {
         Op::Register { user } => {
             let _ = tower::register(&s.api, world.users[user].1.serialize().to_vec());
@@ -89,7 +89,7 @@ fn exec_raw(world: &mut World, s: &mut Session, op: &Op, salt: u64) {
 
 /// Compares the database of the faulted run with the uninterrupted run's at the same position.
 /// `allowance` = slots a user may be short of (cost of the request that was in flight).
-fn compare(base: &Snap, got: &Snap, allowance: &BTreeMap<Vec<u8>, u32>, ctx: &str) -> Option<(String, String)> {
+pub fn compare(base: &Snap, got: &Snap, allowance: &BTreeMap<Vec<u8>, u32>, ctx: &str) -> Option<(String, String)> {
     if got.fk_violations > 0 {
         return Some(("C03:dangling-record".into(), format!("{ctx}: foreign_key_check reports {} dangling rows", got.fk_violations)));
     }
@@ -353,7 +353,7 @@ pub fn run_faulted(world: &mut World, cfg: &tower::TowerCfg, ops: &[Op], base_sn
     fr
 }
 
-fn short_op(op: &Op) -> String {
+pub fn short_op(op: &Op) -> String {
     let s = format!("{op:?}");
     s.split([' ', '{']).next().unwrap_or("?").to_string()
 }
